@@ -24,5 +24,8 @@ def run(ctx):
     ctx.guard(feature_writers, ctx, "C08", eff, sites)
     from ..rules_misc import assembly_layering_rule
     ctx.guard(assembly_layering_rule, ctx, "C08.assembly-layering")
+    # the retained fragment is cut at the spans of the class's own structure (not of a parent matched earlier)
+    from ..rules_ast import persistent_state_rule
+    ctx.guard(persistent_state_rule, ctx, "C08.own-pattern")
     from ..rules_misc import fragment_cache_rule
     ctx.guard(fragment_cache_rule, ctx, "C08.no-fragment-cache")
